@@ -7,14 +7,16 @@ Model: `MidiModel/Tempo.lean` (`finish` = `finishTempoChanges` = sort + `calcula
 `(absolute tick, microseconds per quarter u)`; the Go code stores `BPM = 6e7/u` as float64 and converts with
 `MetricTicks.Duration` (float64 + `math.Round`). **Floats do not enter Lean**: `dur u d` (microseconds of `d` ticks at
 tempo `u` for the file's resolution `q`) is a parameter of the model and the theorems assume `DurOK dur q H`
-(`Proofs/Tempo.lean`): `dur u 0 = 0`, monotone in `d`, within one microsecond of the exact `u·d/q` for `uint32` tick
-counts and segment durations up to the horizon `H`. That the *float* code meets `DurOK` is validated differentially
+(`Proofs/Tempo.lean`): `dur u 0 = 0`, monotone in `d`, within one microsecond of the exact `u·d/q` for segment
+durations up to the horizon `H`. That the *float* code meets `DurOK` is validated differentially
 on every run (support, not proof) — this is the named partial aspect of C11. `durRef_durOK` proves it for the
 rational reference the driver executes.
 
-Domain (`InDomain q H m t`): every tick difference the code converts on the way to `t` is `< 2^32` (the code
-truncates with `uint32(...)`; the model has the truncation, the theorems need it not to bite) and every segment lasts
-at most `H` microseconds. `inDomain_of_small` gives the simple sufficient condition `t < 2^32 ∧ exact time ≤ H`.
+Domain (`InDomain q H m t`, needed by `timeAt_error` only): every tempo segment on the way to `t` lasts at most `H`
+microseconds — the range on which `DurOK` asks `dur` to be accurate. There is no bound on the ticks: since the repair
+c7c6d62 the code passes the int64 tick difference to `duration64` unconverted (before, `uint32(...)` truncated it and
+the theorems carried a `< 2^32` guard per tick gap). `inDomain_of_small`: exact time of `t` at most `H` suffices.
+`timeAt_mono` and `do_times_eq_timeAt` hold for all ticks without any domain condition.
 
 Sorting: `finish` sorts with the model `sortTc` of `sort.Sort`; all theorems hold for *every* collection order `m`
 relative to the sorted slice `sortTc m`. The tie to the code's `sort.Sort` is only claimed where its result is
@@ -41,13 +43,12 @@ theorem timeAt_error (dur : Nat → Nat → Nat) (q H : Nat) (hd : DurOK dur q H
   rw [finish, timeAt_finish_eq dur _ hs, ← exactNum_eq_integral _ hs]
   simpa [exactNum, segments] using h
 
-/-- `TimeAt` is non-decreasing in the tick. -/
-theorem timeAt_mono (dur : Nat → Nat → Nat) (q H : Nat) (hd : DurOK dur q H) (m : Map) (t t' : Nat) (htt : t ≤ t')
-    (hdom : InDomain q H (sortTc m) t') :
+/-- `TimeAt` is non-decreasing in the tick, for all ticks (uses only `dur u 0 = 0` and monotonicity of `dur`). -/
+theorem timeAt_mono (dur : Nat → Nat → Nat) (q H : Nat) (hd : DurOK dur q H) (m : Map) (t t' : Nat) (htt : t ≤ t') :
     timeAt dur (finish dur m) t ≤ timeAt dur (finish dur m) t' := by
   have hs := sortTc_sorted m
   rw [finish, timeAt_finish_eq dur _ hs, timeAt_finish_eq dur _ hs]
-  exact timeSimple_mono hd (sortTc m) 0 0 defaultU t t' hs (Nat.zero_le _) htt hdom
+  exact timeSimple_mono hd (sortTc m) 0 0 defaultU t t' hs (Nat.zero_le _) htt
 
 /-- The times handed out by `TracksReader.Do` for a track with deltas `ds` are `TimeAt` of the running sum of the
     deltas: event `i` gets absolute tick `Σ_{j ≤ i} ds[j]` and that tick's `TimeAt` (so `timeAt_error` and `timeAt_mono`
@@ -86,11 +87,10 @@ theorem durRef_durOK (q H : Nat) (hq : 0 < q) : DurOK (durRef q) q H := durRef_o
 theorem exactNum_is_integral (m : Map) (t : Nat) : exactNum (sortTc m) t = integral (sortTc m) t :=
   exactNum_eq_integral _ (sortTc_sorted m) t
 
-/-- Simple sufficient condition for the domain: the query tick fits `uint32` and the exact time of `t` is at most
-    the horizon. -/
-theorem inDomain_of_small (q H : Nat) (m : Map) (t : Nat) (h32 : t < 4294967296)
+/-- Simple sufficient condition for the domain: the exact time of `t` is at most the horizon. -/
+theorem inDomain_of_small (q H : Nat) (m : Map) (t : Nat)
     (hH : exactNum (sortTc m) t ≤ q * H) : InDomain q H (sortTc m) t :=
-  domFrom_of_small q H _ 0 defaultU t (sortTc_sorted m) (Nat.zero_le _) (by omega) hH
+  domFrom_of_small q H _ 0 defaultU t (sortTc_sorted m) (Nat.zero_le _) hH
 
 /-- An already non-decreasing slice is what the sort returns (the model of `sort.Sort` leaves it untouched, as
     pdqsort does: no element is swapped). -/
@@ -122,17 +122,22 @@ theorem one_track_sorted (evs : List TEv) (δ : Nat) (h : ∀ e ∈ evs, e.eot =
 def sampleMap : Map := [(0, 500000), (96, 250000), (96, 300000), (192, 1), (1000, 16777215)]
 
 example : InDomain 96 (2 ^ 40) (sortTc sampleMap) 2000 :=
-  inDomain_of_small 96 (2 ^ 40) sampleMap 2000 (by decide) (by decide)
+  inDomain_of_small 96 (2 ^ 40) sampleMap 2000 (by decide)
 
 example : let f := finish (durRef 96) sampleMap
     96 * timeAt (durRef 96) f 2000 ≤ integral (sortTc sampleMap) 2000 + 96 * (segments (sortTc sampleMap) 2000 + 1) :=
   (timeAt_error (durRef 96) 96 (2 ^ 40) (durRef_durOK 96 _ (by decide)) sampleMap 2000
-    (inDomain_of_small 96 (2 ^ 40) sampleMap 2000 (by decide) (by decide))).1
+    (inDomain_of_small 96 (2 ^ 40) sampleMap 2000 (by decide))).1
 
 example : (finish (durRef 96) sampleMap).map (·.time) = [0, 500000, 500000, 800000, 800008] := by decide
 example : [96, 97, 192, 193, 1000, 1001].map (timeAt (durRef 96) (finish (durRef 96) sampleMap)) =
     [500000, 503125, 800000, 800000, 800008, 974770] := by decide
 example : segments sampleMap 2000 = 3 ∧ exactNum sampleMap 2000 = 16854015808 := by decide
+/-- ticks beyond 2^32: resolution 32767, no tempo event — tick 2^32 is 65538.0 s into the file (the former finding) -/
+example : [4294967295, 4294967296, 4294967297].map (timeAt (durRef 32767) (finish (durRef 32767) [])) =
+    [65538000045, 65538000061, 65538000076] := by decide
+example : InDomain 32767 (2 ^ 40) (sortTc [(0, 500000), (4294967296, 250000)]) 8589934592 :=
+  inDomain_of_small _ _ _ _ (by decide)
 example : ticksRef 960 500000 (durNsRef 960 500000 123456789) = 123456789 :=
   ticks_dur_inverse_ref 960 500000 123456789 (by decide) (by decide)
 example : isSorted (collect [[⟨0, some 500000, false⟩, ⟨96, none, false⟩, ⟨0, some 250000, false⟩, ⟨5, none, true⟩]]) = true :=
